@@ -37,6 +37,7 @@ func main() {
 	overlay := flag.String("overlay", "", "JSON file {relative path: new content} applied as go/packages overlay (self-test)")
 	child := flag.Bool("child", false, "self-test child: print failed obligation keys as JSON, write no evidence")
 	list := flag.Bool("list", false, "list obligations")
+	writeAnch := flag.Bool("write-anchors", false, "record the reference spelling of the module's identifiers in specs/anchors.json (run on the reference tree)")
 	patch := flag.String("patch", "", "unified diff applied as overlay (development aid: prints failed obligations, writes no evidence)")
 	flag.Parse()
 	verifDir = *verif
@@ -56,6 +57,19 @@ func main() {
 		*child = true
 	}
 
+	if *writeAnch {
+		c, err := load(*repo, "quick", "", false)
+		if err != nil {
+			fmt.Fprintln(os.Stderr, "load:", err)
+			os.Exit(2)
+		}
+		if err := writeAnchors(c); err != nil {
+			fmt.Fprintln(os.Stderr, "write anchors:", err)
+			os.Exit(2)
+		}
+		fmt.Println("wrote", anchorsPath())
+		return
+	}
 	if t := os.Getenv("VERIF_TIER"); t != "" && *tier == "" {
 		*tier = t
 	}
@@ -100,9 +114,14 @@ func main() {
 					c = nil
 					return
 				}
+				resolveAliases(c)
+				sort.Slice(c.Funcs, func(i, j int) bool { return fname(c.Funcs[i]) < fname(c.Funcs[j]) })
 				ctxCache[need] = c
 			}
 			c.Tier = *tier
+			for _, n := range aliasNotes {
+				rep.Notes = append(rep.Notes, "renamed identifier resolved: "+n)
+			}
 			p.Run(c, rep)
 		}()
 		rep.finish()
